@@ -111,6 +111,23 @@ def cq_trace_c(trace, defer_cap, it: Interner) -> str:
     return f"check_trace_t {defer_cap} " + cq_items_c(trace, it)
 
 
+# alphabet op_c of model/GraphCheck.v: OpT op_t | OpCheckConsistency
+def cq_op_cc(op, it: Interner) -> str:
+    if op[0] == "check_consistency":
+        return "OpCheckConsistency"
+    return f"OpT ({cq_op_c(op, it)})"
+
+
+def cq_ops_cc(trace, it: Interner) -> str:
+    ops = common.coq_list([cq_op_cc(t[0], it) for t in trace if t[0][0] != "dispatch_error"])
+    return it.name(ops, "list op_c")
+
+
+def cq_items_cc(trace, it: Interner) -> str:
+    return common.coq_list([f"({cq_op_cc(op, it)}, {e2.OUTC[oc]}, {cq_dump_c(d, it)})"
+                            for op, oc, _, d in trace if op[0] != "dispatch_error"])
+
+
 def _signal_exit(rc: int) -> bool:
     """coqc (or the `timeout` wrapper) was terminated from outside: timeout's own 124 (TERM sent
     after the limit), 137 (SIGKILL: the OOM killer, or timeout -k), 143 (SIGTERM), or Popen's negative
